@@ -139,3 +139,69 @@ M('C08-twin-gt-form', 'C08', UTIL,
   "return PROTOCOL_VERSION_INDICES[pv1] <= PROTOCOL_VERSION_INDICES[pv2]",
   "return not PROTOCOL_VERSION_INDICES[pv1] > PROTOCOL_VERSION_INDICES[pv2]",
   expect='silent')
+
+# ---------------------------------------------------------------- C02
+M('C02-short-send-little-endian', 'C02', BASIC,
+  "socket.send(struct.pack('>h', value))", "socket.send(struct.pack('<h', value))",
+  rule='R02.1')
+M('C02-short-read-4', 'C02', BASIC,
+  "return struct.unpack('>h', file_object.read(2))[0]",
+  "return struct.unpack('>h', file_object.read(4))[0]", rule='R02.1')
+M('C02-integer-read-unsigned', 'C02', BASIC,
+  "return struct.unpack('>i', file_object.read(4))[0]",
+  "return struct.unpack('>I', file_object.read(4))[0]", rule='R02.1')
+M('C02-both-sides-unsigned-long', 'C02', BASIC,
+  "return struct.unpack('>q', file_object.read(8))[0]\n\n    @staticmethod\n    def send(value, socket):\n        socket.send(struct.pack('>q', value))",
+  "return struct.unpack('>Q', file_object.read(8))[0]\n\n    @staticmethod\n    def send(value, socket):\n        socket.send(struct.pack('>Q', value))",
+  rule='R02.1')
+M('C02-string-prefix-of-str', 'C02', BASIC,
+  "        value = value.encode('utf-8')\n        VarInt.send(len(value), socket)\n        socket.send(value)",
+  "        VarInt.send(len(value), socket)\n        socket.send(value.encode('utf-8'))",
+  rule='R02.4')
+M('C02-string-latin1', 'C02', BASIC,
+  "        value = value.encode('utf-8')\n", "        value = value.encode('latin-1')\n",
+  rule='R02.4')
+M('C02-bytearray-prefix-short', 'C02', BASIC,
+  "        VarInt.send(len(value), socket)\n        socket.send(struct.pack(str(len(value)) + \"s\", value))",
+  "        Short.send(len(value), socket)\n        socket.send(struct.pack(str(len(value)) + \"s\", value))",
+  rule='R02.4')
+M('C02-prefixedarray-len-plus-one', 'C02', BASIC,
+  "        self.length_type.send(len(value), socket)",
+  "        self.length_type.send(len(value) + 1, socket)", rule='R02.4')
+M('C02-fixedpoint-read-multiplies', 'C02', BASIC,
+  "return self.integer_type.read(file_object) / self.denominator",
+  "return self.integer_type.read(file_object) * self.denominator",
+  rule='R02.6')
+M('C02-angle-send-255', 'C02', BASIC,
+  "round(256 * ((value % 360) / 360)) % 256", "round(255 * ((value % 360) / 360)) % 256",
+  rule='R02.6')
+M('C02-angle-drop-mod', 'C02', BASIC,
+  "round(256 * ((value % 360) / 360)) % 256", "round(256 * ((value % 360) / 360))",
+  rule='R02.5')
+M('C02-rebreak-D1', 'C02', BASIC,
+  "self.integer_type.send(int(value * self.denominator), socket)",
+  "self.integer_type.send(int(value * self.denominator))", rule='R02.2')
+M('C02-rebreak-D3', 'C02', BASIC,
+  "        data = file_object.read(length)\n        if len(data) < length:\n            raise EOFError(\"Unexpected end of message.\")\n        return data.decode(\"utf-8\")",
+  "        return file_object.read(length).decode(\"utf-8\")", rule='R02.3')
+M('C02-uuid-bytes-le', 'C02', BASIC,
+  "return str(uuid.UUID(bytes=file_object.read(16)))",
+  "return str(uuid.UUID(bytes_le=file_object.read(16)))", rule='R02.8')
+M('C02-dispatch-swapped', 'C02', BASIC,
+  "return cls_or_self.send(value, socket)", "return cls_or_self.send(socket, value)",
+  rule='R02.7')
+M('C02-effectposition-scale', 'C02', SOUND,
+  "Integer.send(int(coordinate * 8), socket)", "Integer.send(int(coordinate * 32), socket)",
+  rule='R02.6')
+M('C02-twin-format-constant', 'C02', BASIC,
+  "class Short(Type):\n    @staticmethod\n    def read(file_object):\n        return struct.unpack('>h', file_object.read(2))[0]",
+  "SHORT_FMT = '!h'\n\n\nclass Short(Type):\n    @staticmethod\n    def read(file_object):\n        return struct.unpack(SHORT_FMT, file_object.read(2))[0]",
+  expect='silent')
+M('C02-twin-local-data', 'C02', BASIC,
+  "        return struct.unpack('>i', file_object.read(4))[0]",
+  "        data = file_object.read(4)\n        return struct.unpack('>i', data)[0]",
+  expect='silent')
+M('C02-twin-not-data', 'C02', BASIC,
+  "        if len(data) < length:\n            raise EOFError(\"Unexpected end of message.\")",
+  "        if len(data) != length:\n            raise EOFError(\"Unexpected end of message.\")",
+  expect='silent')
